@@ -16,15 +16,26 @@
 //   - a RECORDING PrivValidator: every vote / proposal signed, with the log position.
 //
 // The node runs several heights.  Then, for EVERY prefix of the durable-write log, the database
-// and the WAL file are rebuilt from the prefix (the crash image) and a NEW node is started on it
+// and the WAL group are rebuilt from the prefix (the crash image) and a NEW node is started on it
 // exactly as a restart would; it runs until it commits one more height or is stuck.  For a sample
 // of crash points the restarted node is crashed AGAIN at a prefix of its own durable log.
 //
+// Families: both state-cache modes, snapshots on/off, blocks with and without transactions;
+// unsynced WAL tail lost / kept / torn; WAL ROTATION (cases idx%8 in {6,7}: head-size limit 1 byte
+// = a rotation after every fsync, or a random limit; the real checkHeadSizeLimit runs between any
+// two WAL writes; images without head file when the crash follows a rotation: BaseWAL.OnStart
+// writes #ENDHEIGHT 0 into the new head and catchupReplay must find the markers in wal.NNN);
+// a restarted node whose POOL holds a transaction it has never seen (idx%8 == 7: re-created
+// blocks differ from every original block, a skipped replay shows at every height).
+//
+// Time: the node's timeouts are LOGICAL (crTicker): no outcome depends on the machine's speed.
+//
 // impl.txt carries the recovery observables per crash point, compared with the extracted Coq
 // model (coq/theories/C05/Model.v) which predicts them from the classified kinds of the
-// durable writes; oracle.txt carries the direct oracles of the property (restart-fails,
-// stores-diverge, block-replaced, double-sign, height-redecided, block-lost, diverges-from-twin,
-// own-msg-not-durable).
+// durable writes, the WAL records and the rotation marks; oracle.txt carries the direct oracles of
+// the property (restart-fails, stores-diverge, block-replaced, double-sign, height-redecided,
+// height-rerun, block-lost, diverges-from-twin, no-progress, own-msg-not-durable, pipeline-order,
+// replay-class-vs-wal = catchupReplay's outcome against the #ENDHEIGHT markers decoded from the image).
 package consensus
 
 import (
@@ -680,7 +691,10 @@ func (w *crWAL) note(m WALMessage, sync bool) {
 		// this runs in the receive routine, right after its select took the timeout off the ticker:
 		// own messages (proposal, parts, votes) are queued synchronously by the routine itself, so a
 		// non-empty queue here means that the timeout overtook them only because the machine is slow
-		if len(w.cs.internalMsgQueue) > 0 {
+		// (a stale timeout - handleTimeout ignores it - may come with anything)
+		cs := w.cs
+		stale := ti.Height != cs.Height || ti.Round < cs.Round || (ti.Round == cs.Round && ti.Step < cs.Step)
+		if !stale && len(cs.internalMsgQueue) > 0 {
 			atomic.StoreInt32(&w.raced, 1)
 		}
 	}
@@ -915,11 +929,12 @@ type crScenario struct {
 	heights  int
 	txAt     map[uint64]int // txs submitted while the node is at this height
 	rotLimit int64          // > 0: WAL head size limit (the head is rotated at the first check that finds it this large)
+	repool   bool           // a restarted node finds a transaction it has never seen in its pool before it proposes (re-created blocks differ from every original block)
 }
 
 type crEnv struct {
 	key     *types.DefaultPrivValidator
-	userKey [2]*types.DefaultPrivValidator
+	userKey [3]*types.DefaultPrivValidator // [2]: sender of the transactions a restarted node finds in its pool (sc.repool)
 	sc      crScenario
 	gated   bool // the next node started runs height by height (crTicker.release): the first life
 }
@@ -984,6 +999,7 @@ type crNode struct {
 	eb        *types.EventBus
 	wal       *crWAL
 	tk        *crTicker
+	poolRefused bool // sc.repool: the pool refused the new transaction (a chain on an empty state): the pool is empty
 	ccfg      *configs.ConsensusConfig
 	state0    cstate.LatestBlockState // state the node was started from
 	stage     string                  // last assembly stage reached
@@ -1110,6 +1126,37 @@ func crStartNode(env *crEnv, mem *memorydb.Database, walBytes []byte, rots []int
 		nd.bo = blockchain.NewBlockOperations(logger, nd.bc, nd.txPool, evPool, su)
 		nd.boHt = nd.bo.Height()
 		blockExec = cstate.NewBlockExecutor(nd.store, logger, evPool, nd.bo)
+		return nil
+	}) && step("repool", func() error {
+		if env.gated || !env.sc.repool {
+			return nil
+		}
+		// a transaction this node has never seen (its amount names the node), valid on the head state
+		st, err := nd.bc.State()
+		if err != nil {
+			return nil // no head state: nothing can be added; the restart will report it
+		}
+		from := env.userKey[2]
+		n := st.GetNonce(from.GetAddress())
+		to := common.BytesToAddress([]byte{0xc0, 0x05, 0xee})
+		tx := types.NewTransaction(n, to, big.NewInt(500000+gen), 100000, big.NewInt(1000000000), nil)
+		stx, err := types.SignTx(types.HomesteadSigner{}, tx, from.GetPrivKey())
+		if err != nil {
+			panic(err)
+		}
+		if err := nd.txPool.AddLocal(stx); err != nil {
+			atomic.AddInt64(&crRepoolRejected, 1)
+			nd.poolRefused = true
+			if os.Getenv("C05_DBG") != "" {
+				fmt.Println("DBG repool refused:", err, "head", nd.hh0)
+			}
+			return nil
+		}
+		for t0 := time.Now(); time.Since(t0) < 120*time.Second; time.Sleep(200 * time.Microsecond) {
+			if pend, _ := nd.txPool.ContentFrom(from.GetAddress()); len(pend) > 0 {
+				break
+			}
+		}
 		return nil
 	}) && step("LoadStateFromDBOrGenesisDoc", func() error {
 		var err error
@@ -1264,6 +1311,8 @@ type crLogCap struct {
 var crLogs = &crLogCap{}
 
 var crNodeGen int64 // generation of the node whose log records are captured
+
+var crRepoolRejected int64 // transactions the pool of a restarted node refused (harness error)
 
 func (c *crLogCap) handler() log.Handler {
 	return log.FuncHandler(func(r *log.Record) error {
@@ -1682,7 +1731,7 @@ func crRestart(env *crEnv, img *crImg, settle, wall time.Duration) *crRun {
 	// "no-marker"
 	r.walExpect = ""
 	if r.replay == "eh-present" || r.replay == "replayed" || r.replay == "no-marker" {
-		hasStart, hasPrev := false, false
+		hasStart, hasPrev, monotone, lastM := false, false, true, int64(0)
 		prev := int64(r.start) - 1
 		if r.start <= 1 {
 			prev = 0
@@ -1698,6 +1747,12 @@ func crRestart(env *crEnv, img *crImg, settle, wall time.Duration) *crRun {
 				break
 			}
 			if e, ok := m.Msg.(EndHeightMessage); ok {
+				if e.Height != 0 {
+					if e.Height <= lastM {
+						monotone = false
+					}
+					lastM = e.Height
+				}
 				if e.Height == int64(r.start) {
 					hasStart = true
 				}
@@ -1715,6 +1770,11 @@ func crRestart(env *crEnv, img *crImg, settle, wall time.Duration) *crRun {
 			r.walExpect = "no-marker"
 		}
 		r.walCheck = r.walExpect == r.replay
+		if !monotone {
+			// heights were run again on this WAL (genesis fallback, rewound head: reported under those
+			// causes): SearchForEndHeight is specified for increasing markers only
+			r.walCheck = true
+		}
 		if _, rep := crFind(r.logs, "wal-repaired"); rep || img.tail == "torn" {
 			// a torn tail: the first replay pass may have run through a commit before the damage was met;
 			// the class then belongs to the next height (see F7 in the report)
@@ -2211,6 +2271,11 @@ func (c *crCase) step(in string, img *crImg, withRel bool, inherited string) (*c
 	c.oracles(r, all, c.facts0, inherited)
 	rels := crSigsOf(all, r.start)
 	obs := c.observe(r, rels, withRel)
+	if r.nd.poolRefused {
+		// the model is told that this node's pool was empty
+		in += " np"
+		c.o.Count("pool:new-transaction-refused")
+	}
 	c.o.Op(in, obs)
 	c.o.Count("end:" + r.end)
 	c.o.Count("replay:" + r.replay)
@@ -2312,8 +2377,9 @@ func crRunCase(o *crOut, idx int, r *crRand, tier string) {
 			sc.rotLimit = 1 // every fsync is followed by a rotation: each file holds one fsynced record
 		} else {
 			sc.rotLimit = int64(700 + r.Intn(5000)) // a file holds the records of part of a height up to several heights
+			sc.repool = true                         // and the restarted node's pool is not empty: replay must hold at EVERY height
 			if tier != "thorough" || idx < 12 {
-				sc.txAt = map[uint64]int{2: 1, 3: 2}
+				sc.txAt = map[uint64]int{2: 1}
 			}
 		}
 	}
@@ -2342,7 +2408,7 @@ func crRunCase(o *crOut, idx int, r *crRand, tier string) {
 	nd := crStartNode(env, memorydb.New(), nil, nil, rec)
 	env.gated = false
 	if nd.failed != "" {
-		o.Case(idx, fmt.Sprintf("CASE %d %d %d %d %d %d", idx, crB(sc.archive), crB(sc.snapshot), sc.heights, crB(c.appFixed), sc.rotLimit))
+		o.Case(idx, fmt.Sprintf("CASE %d %d %d %d %d %d %d", idx, crB(sc.archive), crB(sc.snapshot), sc.heights, crB(c.appFixed), sc.rotLimit, crB(sc.repool)))
 		o.Fail(0, "first-start-fails", fmt.Sprintf("cause=stage-%s-%s %s", nd.stage, crPanicClass(nd.failed), strings.Split(nd.failed, "\n")[0]))
 		nd.kill()
 		return
@@ -2408,8 +2474,11 @@ func crRunCase(o *crOut, idx int, r *crRand, tier string) {
 	c.life0 = crLifeOf(rec, nd.walBytes())
 	c.facts0 = crReadFacts(nd.db.inner)
 	l := c.life0
-	o.Case(idx, fmt.Sprintf("CASE %d %d %d %d %d %d", idx, crB(sc.archive), crB(sc.snapshot), sc.heights, crB(c.appFixed), sc.rotLimit))
+	o.Case(idx, fmt.Sprintf("CASE %d %d %d %d %d %d %d", idx, crB(sc.archive), crB(sc.snapshot), sc.heights, crB(c.appFixed), sc.rotLimit, crB(sc.repool)))
 	o.Count(fmt.Sprintf("mode:archive=%v,snapshot=%v", sc.archive, sc.snapshot))
+	if sc.repool {
+		o.Count("pool:new-transaction-after-restart")
+	}
 	if sc.rotLimit > 0 {
 		o.Count("wal:rotating-head")
 		if sc.rotLimit == 1 {
@@ -2481,6 +2550,13 @@ func crRunCase(o *crOut, idx int, r *crRand, tier string) {
 	want := 5
 	if c.thorough {
 		want = 14
+	}
+	if sc.repool {
+		// the model predicts one recovery from original blocks; a second recovery from the blocks of a
+		// first recovery that had a non-empty pool (rounds decided nil, proposals of later rounds) is
+		// covered in the cases with an empty pool only
+		want = 0
+		o.Count("second-crash:not-run-in-new-transaction-case")
 	}
 	seenW := map[string]bool{}
 	var chosen []pick
